@@ -1662,3 +1662,11 @@ func specNextLine(fb *functionBuilder) int {
 //@   requires fs != nil && fs.emitter != nil && fs.emitter.fb != nil && fs.emitter.fb.fn != nil && fs.scriggoFuncIndexes != nil
 //@   requires len(fs.emitter.fb.fn.Functions) <= 256
 //@   ensures[C20] len(fs.emitter.fb.fn.Functions) <= 256
+
+// C04/C20, field indexes: a struct field is named by an 8-bit operand that the
+// virtual machine and the disassembler read as unsigned (up to 256 field paths
+// per function); the emitter reads the table back with the same reading.
+//@ func address.targetType
+//@   props X00 C04
+//@   panics allowed
+//@   idxassert[C04] a.em.fb.fn.FieldIndexes 0 256
